@@ -1245,6 +1245,9 @@ pub fn generate(prop: &str, rng: &mut Rng, plan: &mut Plan, index: u64) {
             let n = 1 + rng.below(2) as usize;
             if rng.chance(1, 3) {
                 plan.parent.cred = Cred::user(1000, 1000);
+            } else if rng.chance(1, 4) {
+                // a set-user-id-root program: real and effective identity differ
+                plan.parent.cred = Cred { ruid: 1000, euid: 0, suid: 0, rgid: 1000, egid: 0, sgid: 0 };
             }
             for _ in 0..n {
                 let mut spec = SpawnSpec::default();
@@ -1356,7 +1359,7 @@ pub fn generate(prop: &str, rng: &mut Rng, plan: &mut Plan, index: u64) {
                 47 => spec.argv[0] = b"/work/file".to_vec(),
                 48 => spec.argv[0] = b"/work/sub".to_vec(),
                 49 => spec.cwd = Some(b"/work/missing".to_vec()),
-                50 => spec.cwd = Some(b"/work/file".to_vec()),
+                50 => spec.cwd = Some(if index / 64 % 2 == 0 { b"/work/file".to_vec() } else { b"/work/file/below".to_vec() }),
                 51 => {
                     plan.parent.cred = Cred::user(1000, 1000);
                     spec.setuid = Some(0);
@@ -1430,7 +1433,19 @@ pub fn generate(prop: &str, rng: &mut Rng, plan: &mut Plan, index: u64) {
                     0 => String::new(),
                     1 => format!("/p/missing{}", i),
                     2 => "/work/locked".to_string(),
-                    3 => format!("/p/{}", "d".repeat(rng.range(200, 250) as usize)),
+                    3 => {
+                        if rng.chance(1, 3) {
+                            // so long that <dir>/<name> does not fit into PATH_MAX: the candidate is skipped (ENAMETOOLONG)
+                            let mut d = String::from("/p");
+                            while d.len() < 4090 {
+                                d.push('/');
+                                d.push_str(&"e".repeat(200));
+                            }
+                            d
+                        } else {
+                            format!("/p/{}", "d".repeat(rng.range(200, 250) as usize))
+                        }
+                    }
                     4 if i > 0 => path_entries[rng.below(i as u64) as usize].clone(),
                     5 => format!("rel{}", i),
                     6 => "/work/file".to_string(),
